@@ -7,6 +7,7 @@ import "bytes"
 func VP_C08_Global() {
 	n, mm := vpCase("n"), vpCase("m")
 	a, b, m := vpInputs(false)
+	vpWarm(m, false)
 	ac, bc := append([]byte(nil), a...), append([]byte(nil), b...)
 	var steps []Step
 	var score float64
@@ -28,6 +29,7 @@ func VP_C08_Global() {
 // what Local claims; no positive alignment -> no steps and score 0.
 func VP_C08_Local() {
 	a, b, m := vpInputs(true)
+	vpWarm(m, true)
 	ac, bc := append([]byte(nil), a...), append([]byte(nil), b...)
 	var steps []Step
 	var ai, bi int
